@@ -103,13 +103,15 @@ def run(ctx, cases, tag=""):
     excluded = {c["id"] for c in cases if (mres.get(c["id"]) or "").startswith("class=panic:EXCLUDED")}
     todo = [c for c in cases if c["id"] not in excluded]
     res, missing, err = ctx.probe("interp", [dict(id=c["id"], src_hex=c["src"].hex(), opts=c.get("opts", ""),
-                                                  name=c.get("name", "input"), **({"seq": c["seq"]} if "seq" in c else {}))
+                                                  name=c.get("name", "input"), **{k: c[k] for k in ("seq", "sticky") if k in c})
                                              for c in todo], tag=tag, timeout=3000)
     out = []
     for c in todo:
         r = res.get(c["id"])
         if r and r.get("seq") is not None:
             r["obs"]["_seq"] = r["seq"]
+        if r and r.get("sticky") is not None:
+            r["obs"]["_sticky"] = r["sticky"]
         out.append((c, r["obs"] if r else None, parse_model(mres.get(c["id"]))))
     ctx.suite_stats.setdefault("excluded_by_property", 0)
     ctx.suite_stats["excluded_by_property"] += len(excluded)
